@@ -638,6 +638,7 @@ class NPProxy(pytypes.ModuleType):
     def ones(self, shape, dtype=float, **kw): return SArray.wrap(numpy.ones(_shape_tuple(shape), dtype))
     def arange(self, *a, **kw): return SArray.wrap(numpy.arange(*[operator.index(x) for x in a], **kw))
     def asarray(self, a, dtype=None, **kw):
+        a = _from_seq(a)
         if isinstance(a, (SArray, Sym)):
             a = SArray.wrap(a)
             return a if dtype is None else a.astype(numpy.dtype(dtype), copy=False)
@@ -645,9 +646,23 @@ class NPProxy(pytypes.ModuleType):
     def array(self, a, dtype=None, copy=True, **kw):
         r = self.asarray(a, dtype)
         return r.copy() if copy and r is a else r
+    def cumsum(self, a, *args, **kw): return numpy.cumsum(_from_seq(a), *args, **kw)
+    def stack(self, a, *args, **kw): return numpy.stack([_from_seq(x) for x in a], *args, **kw)
+    def concatenate(self, a, *args, **kw): return numpy.concatenate([_from_seq(x) for x in a], *args, **kw)
     def int_(self, v):
         if isinstance(v, (SArray, Sym)): return SArray.wrap(v, 'i')
         return numpy.int_(v)
+
+def _from_seq(x):
+    '''lists/tuples containing symbolic items -> SArray'''
+    if isinstance(x, (list, tuple)):
+        items = [_from_seq(y) for y in x]
+        if any(isinstance(y, (SArray, Sym)) for y in items):
+            items = [SArray.wrap(y) for y in items]
+            k = _k_arith([y.kind for y in items])
+            return SArray(numpy.stack([_cast(y.a, y.kind, k) for y in items]) if items else numpy.empty((0,), object), k)
+        return numpy.asarray(x)
+    return x
 
 def _shape_tuple(shape):
     if isinstance(shape, (tuple, list)): return tuple(operator.index(s) for s in shape)
